@@ -3,7 +3,7 @@
 //	inproc sum     lines: "seq" | "<bufsize> <hexdata> <len,len,...> [err]"  -> hex digest or "ERR"
 //	inproc batch   lines as for sum (no err), all hashed concurrently on the shared pools -> digests in input order
 //	inproc stage   lines: stage spec -> reloaded normal form + definition checksum
-//	inproc path    lines: "clean\t<hex>" | "dir\t<hex>" | "join\t<hex>\t<hex>" | "rel\t<hex>\t<hex>" | "absrel\t<hexbase>\t<hexpath>"
+//	inproc path    lines: "clean\t<hex>" | "dir\t<hex>" | "join\t<hex>\t<hex>" | "rel\t<hex>\t<hex>" | "absrel\t<hexbase>\t<hexpath>" | "rebase\t<hexroot>\t<hexcwd>\t<hexarg>"
 //	inproc pool    lines: "<op> <shared> <dedicated> <dir>"   goroutine accounting around Commit/Checkout/Status
 package main
 
@@ -262,6 +262,23 @@ func modePath(in *bufio.Scanner, w *bufio.Writer) {
 			}
 		case "absrel": // pathAbsThenRel(base, path) for an absolute path (cwd independent)
 			r, err := cmd.PathAbsThenRel(string(unhex(f[1])), string(unhex(f[2])))
+			if err != nil {
+				fmt.Fprintln(w, "ERR")
+			} else {
+				fmt.Fprintln(w, hx([]byte(r)))
+			}
+		case "rebase": // pathAbsThenRel(root, arg) called from the working directory cwd (spelt as in $PWD)
+			root, cwd, arg := string(unhex(f[1])), string(unhex(f[2])), string(unhex(f[3]))
+			if err := os.MkdirAll(filepath.Clean(cwd), 0o755); err != nil {
+				fmt.Fprintln(w, "harness-error")
+				continue
+			}
+			if err := os.Chdir(filepath.Clean(cwd)); err != nil {
+				fmt.Fprintln(w, "harness-error")
+				continue
+			}
+			os.Setenv("PWD", cwd)
+			r, err := cmd.PathAbsThenRel(root, arg)
 			if err != nil {
 				fmt.Fprintln(w, "ERR")
 			} else {
